@@ -718,7 +718,8 @@ func compileAssignStmtLeft(context *funcContext, stmt *ast.AssignStmt) (int, []*
 			case ecLocal:
 				// only the last target may be stored to directly: the stores are emitted last-to-first,
 				// so an earlier local must not be overwritten before the later right-hand sides are read
-				if islast {
+				// (and only when no extra right-hand expression is evaluated after its value has been stored)
+				if islast && len(stmt.Rhs) <= len(stmt.Lhs) {
 					ec.reg = context.FindLocalVar(st.Value)
 				}
 			}
